@@ -3,22 +3,26 @@
 import subprocess
 tbl = subprocess.check_output(['python3', '/verif/tools/mkstatus.py'], text=True)
 import glob, json, os
-first, later, other, missed = [], [], [], []
-for m in sorted(glob.glob('/verif/seeded/*/meta.json')):
+first, later, other, missed, notviol = [], [], [], [], []
+for m in sorted(glob.glob('/verif/seeded/C*/meta.json')):
     d = json.load(open(m)); n = os.path.basename(os.path.dirname(m))
     if d['check'].get('caught') and 'history' not in d:
         first.append(n)
     elif d['check'].get('caught'):
         later.append('%s (%s)' % (n, d['history'].split(';')[0][:230]))
+    elif d.get('lead_assessment'):
+        notviol.append('%s (%s)' % (n, d['lead_assessment'][:420]))
     elif d['check'].get('caught_by_other_check'):
         other.append('%s (reported by %s: %s)' % (n, d['check']['caught_by_other_check'], d.get('history', '')[:200]))
     else:
         missed.append('%s (%s)' % (n, d.get('needs_to_manifest', '')[:200]))
-summ = '* **%d seeded changes kept** (two per property from independent sub-agents, plus a third, "subtler" round for C09 C16 C21 C26 C36 C42).\n' % (len(first) + len(later) + len(other) + len(missed))
+summ = '* **%d seeded changes kept** (two per property from independent sub-agents, plus a third, "subtler" round of one change each for C09 C16 C21 C26 C36 C42 C29 C38).\n' % (len(first) + len(later) + len(other) + len(missed) + len(notviol))
 summ += '* reported at the first run (%d): %s.\n' % (len(first), ', '.join(first))
 summ += '* reported after the check was strengthened (%d):\n' % len(later) + ''.join('  * %s\n' % x for x in later)
 if other:
     summ += '* not visible to the property\'s own check, reported by a sibling check (%d):\n' % len(other) + ''.join('  * %s\n' % x for x in other)
+if notviol:
+    summ += '* kept but judged not to break the property as stated (%d):\n' % len(notviol) + ''.join('  * %s\n' % x for x in notviol)
 summ += ('* still missed (%d):\n' % len(missed) + ''.join('  * %s\n' % x for x in missed)) if missed else '* none is missed at the time of writing.\n'
 sec = open('/verif/tools/design_sec10.md').read().replace('STATUS_TABLE', tbl).replace('SEED_SUMMARY', summ)
 p = '/verif/DESIGN.md'
